@@ -137,7 +137,26 @@ JudgeTree(r) ==
       v == JudgeTreeToks(r, NL, 1)
   IN IF v # "ok" THEN v ELSE JudgeNodes(r, NL, 1)
 
+\* ---- C15: a representation of the input (bytes, TextSlice window) against the extracted substring parsed as str ----
+\* r.ref / r.var : flattened results (pre-order) [label, start, end]; r.a = window start; r.referr / r.varerr = [class, pos, line, col]
+JudgeRepr(r) ==
+  LET NL == SetOf(r.NL) IN
+  IF r.referr[1] # r.varerr[1] THEN "outcome-or-error-class-differs:" \o r.referr[1] \o "/" \o r.varerr[1]
+  ELSE IF r.referr[1] # "" THEN
+       \* an unexpected $END on a window without any token carries default coordinates (there is no last token)
+       (IF r.endnotoken THEN "ok"
+        ELSE IF r.referr[2] >= 0 /\ r.varerr[2] # r.referr[2] + r.a THEN "error-position-is-not-shifted-by-the-window-start"
+        ELSE IF r.varerr[2] >= 0 /\ r.varerr[3] > 0 /\ (r.varerr[3] # Line(NL, r.varerr[2]) \/ r.varerr[4] # Col(NL, r.varerr[2]))
+             THEN "error-line-column-are-not-those-of-the-buffer"
+        ELSE "ok")
+  ELSE IF Len(r.ref) # Len(r.var) THEN "tree-shape-differs"
+  ELSE IF \E i \in DOMAIN r.ref : r.ref[i][1] # r.var[i][1] THEN "token-type-or-value-or-node-differs"
+  ELSE IF \E i \in DOMAIN r.ref : r.ref[i][2] >= 0 /\ (r.var[i][2] # r.ref[i][2] + r.a \/ r.var[i][3] # r.ref[i][3] + r.a) THEN "offsets-are-not-shifted-by-the-window-start"
+  ELSE IF \E i \in DOMAIN r.ref : r.ref[i][2] < 0 /\ r.var[i][2] >= 0 THEN "empty-node-has-positions-in-the-variant"
+  ELSE JudgeTree(r)
+
 JudgeC06(c, r) ==
+  IF r.mode = "repr" THEN JudgeRepr(r) ELSE
   IF r.mode = "tree" THEN JudgeTree(r) ELSE
   LET NL == SetOf(r.NL)
       v == JudgeCoords(r, NL, 1)
